@@ -22,6 +22,9 @@ func genURLSchema(r *Rng, o *Out) *jsonapi.Schema {
 	if r.chance(1, 6) {
 		names[r.IntN(3)] = "od]t" // a type name with a closing bracket: fields[od]t]=...
 	}
+	if r.chance(1, 5) {
+		names[r.IntN(3)] = []string{"t", "x", "a-type_with.a.long-name"}[r.IntN(3)] // one character; long
+	}
 	n := 1 + r.IntN(3)
 	for i := 0; i < n; i++ {
 		t := jsonapi.Type{Name: names[i]}
